@@ -79,6 +79,42 @@ fn main() {
                 None => println!("child died"),
             }
         }
+        "show-log" => {
+            // triage helper: run the history of a replay file and print the syscall log around its cut
+            let Some(path) = args.get(2) else { usage() };
+            let rf: evidence::ReplayFile = serde_json::from_str(&std::fs::read_to_string(path).unwrap()).unwrap();
+            let span: usize = args.get(3).and_then(|s| s.parse().ok()).unwrap_or(25);
+            let pid = unsafe { libc::fork() };
+            if pid == 0 {
+                let root = runner::scratch_root();
+                let _ = std::fs::create_dir_all(format!("{root}/tmp"));
+                std::env::set_var("TMPDIR", format!("{root}/tmp"));
+                runner::setup_env(&rf.scenario);
+                let mut w = world::World::new(&root, &rf.scenario);
+                w.run(&rf.scenario.ops);
+                w.finish_segment();
+                shim::env_stop();
+                shim::set_sim_thread(false);
+                if let Some(cp) = &rf.scenario.post {
+                    let cut = match &cp.spec {
+                        disk::CrashSpec::Process { cut, .. } => *cut,
+                        disk::CrashSpec::Power { cut, .. } => *cut,
+                    };
+                    let seg = &w.segs[cp.seg];
+                    let lo = cut.saturating_sub(span);
+                    let hi = (cut + span / 3).min(seg.log.len());
+                    for (i, o) in seg.log.iter().enumerate().take(hi).skip(lo) {
+                        let mark = if i == cut { "  <== CUT (ops before this line applied)" } else { "" };
+                        println!("{i:5} {:?} ino={} off={} len={} {} {}{}", o.kind, o.ino, o.off, o.len, o.name, o.name2, mark);
+                    }
+                    println!("post = {:?}", cp);
+                }
+                let _ = std::fs::remove_dir_all(&root);
+                unsafe { libc::_exit(0) };
+            }
+            let mut st = 0;
+            unsafe { libc::waitpid(pid, &mut st, 0) };
+        }
         "selftest-determinism" => {
             let n: u64 = args.get(2).and_then(|s| s.parse().ok()).unwrap_or(200);
             let id = args.get(3).cloned().unwrap_or_else(|| "C01".to_string());
